@@ -220,7 +220,7 @@ def run_module_case(st: Stats, default, default_pos, ents, context, stratum):
             body_want = "private" if default == "private" else "public"
             if names_body and stmt in ("public", "private"):
                 body_want = stmt  # the access statement names the interface body itself
-            if body_got != body_want and not (default == "private" and default_pos == "late" and not (names_body and stmt in ("public", "private"))):
+            if body_got != body_want:
                 bad += 1
                 st.violation("wrong-permission", stratum, dict(kind="interface body", default=default, default_pos=default_pos if default != "none" else "-", attr="none",
                                                                 stmt=stmt if names_body else "none", stmt_pos="-", generic_stmt=stmt if not names_body else "none", expected=body_want, observed=body_got, n_entities=len(ents)),
